@@ -3,6 +3,8 @@ sys.path.insert(0,'/verif/vf')
 import gen, verus
 unit=sys.argv[1]
 g,t=gen.generate('/verif/units/%s.vrs'%unit)
+import os
+os.makedirs('/tmp/vt', exist_ok=True)
 p='/tmp/vt/%s.rs'%unit
 open(p,'w').write(t)
 print('undecided',g.undecided)
